@@ -17,6 +17,51 @@ def I(name, props, call, be=BOTH, tier="quick", unwind=2, unwindset=None, timeou
     return d
 
 
+WIDTH = {"g8": 8, "s16": 16}
+
+
+def uw_one(n, be, items=None, n2=None, extra=None):
+    """Loop bounds derived from the code (DESIGN section 2, 'Unwinding'): a probe loop visits each
+    group at most once, a bit loop at most WIDTH lanes, table walks at most N (or N/WIDTH groups).
+    bound = max iterations + 1."""
+    w = WIDTH[be]
+    nn = max(n, n2 or 0)
+    g = max(1, nn // w)
+    it = (items if items is not None else nn) + 2
+    wl = min(w, nn)  # lanes of a window that can hold a real bucket: a table smaller than a group has only N
+    d = {
+        # hashbrown probe loops: outer = groups, inner = lanes
+        "RawTableInner::find_inner#0": g + 1, "RawTableInner::find_inner#1": wl + 1,
+        "RawTableInner::find_or_find_insert_slot_inner#0": g + 1,
+        "RawTableInner::find_or_find_insert_slot_inner#1": wl + 1,
+        "RawTableInner::find_insert_slot": g + 1,
+        "RawIterHashInner": g + 2,
+        "RawTableInner::prepare_rehash_in_place": g + 1,
+        "RawTableInner::rehash_in_place": nn + 1,
+        # label .0 = inner swap chain (<= items iterations), .1 = outer walk over the N buckets
+        "RawTableInner::rehash_in_place.0": it, "RawTableInner::rehash_in_place.1": nn + 1,
+        "RawTableInner::resize_inner": it,
+        "FullBucketsIndices::next_impl": g + 1,
+        "FullBucketsIndices": g + 1,
+        "RawIterRange": g + 1,
+        "fold_impl#0": g + 1, "fold_impl#1": wl + 1,
+        "RawTableInner::drop_elements": it, "RawIter": it,
+        "clone_from_impl": nn + 1,
+        "swap_nonoverlapping": 34,
+        # harness helpers (sym.rs)
+        "sym::fill": nn + 1, "sym::snap#0": nn + 1, "sym::snap#1": w + 1, "sym::inv": nn + 1,
+        "sym::window_has_empty#0": nn + 1, "sym::window_has_empty#1": w + 1, "sym::chain_ok": g + 1,
+        "sym::St": nn + 1,
+    }
+    if extra:
+        d.update(extra)
+    return d
+
+
+def uw(n, items=None, n2=None, extra=None):
+    return {be: uw_one(n, be, items, n2, extra) for be in WIDTH}
+
+
 def instances():
     L = []
     # ------------------------------------------------------------------ C17 arithmetic / probe
@@ -36,6 +81,114 @@ def instances():
     for g, tier in ((1, "quick"), (2, "quick"), (4, "quick"), (8, "quick"), (16, "thorough"), (64, "thorough")):
         L.append(I("c17_probe_visits_g%d" % g, ["C17", "C13"], "c17::probe_visits_all::<%d>()" % g,
                    unwind=g + 2, tier=tier, bounds="%d groups, all 64-bit hashes as start" % g))
+    # ------------------------------------------------------------------ C18 scanner primitives
+    for n in ("match_tag_all", "match_special_all", "match_full_order_all", "convert_all", "static_empty_and_consts"):
+        L.append(I("c18_" + n, ["C18"], "c18::%s()" % n, unwind=18, timeout=900,
+                   bounds="every group of WIDTH bytes (2^64 / 2^128), every tag; no input bound"))
+    # ------------------------------------------------------------------ C06 HashTable steps
+    G8, S16 = ["g8"], ["s16"]
+    def T(name, call, n, be=BOTH, tier="quick", n2=None, items=None, props=("C06",), **kw):
+        L.append(I(name, list(props), call, be=be, tier=tier, unwind=max(n, n2 or 0, 8) + 2,
+                   unwindset=uw(n, items=items, n2=n2), bounds="N=%d buckets%s" % (n, (" -> %d" % n2) if n2 else ""), **kw))
+    C6 = ("C06", "C02", "C18")
+    T("c06_find_n4", "c06::find::<4>(SYM, SYM)", 4, props=C6)
+    T("c06_find_n8", "c06::find::<8>(SYM, SYM)", 8, props=C6)
+    T("c06_find_n16", "c06::find::<16>(SYM, SYM)", 16, be=G8, props=C6)
+    T("c06_find_n16s", "c06::find::<16>(SYM, SYM)", 16, be=S16, tier="thorough", props=C6)
+    T("c06_find_n32", "c06::find::<32>(SYM, SYM)", 32, tier="thorough", props=C6)
+    T("c06_insert_n4", "c06::insert::<4, 4>(2, 0)", 4, items=2, props=C6)
+    T("c06_insert_n4_grow", "c06::insert_full::<4, 8>(3, 0)", 4, n2=8, items=3, props=C6)
+    T("c06_insert_n8", "c06::insert::<8, 8>(4, 0)", 8, items=4, props=C6)
+    T("c06_insert_n8_grow", "c06::insert_full::<8, 16>(7, 0)", 8, n2=16, items=7, props=C6)
+    T("c06_insert_n16", "c06::insert::<16, 16>(5, 3)", 16, be=G8, items=5, props=C6)
+    T("c06_insert_n16_rehash", "c06::insert_full::<16, 32>(3, 11)", 16, be=G8, n2=32, items=3, props=C6, timeout=1800)
+    T("c06_insert_n16_grow", "c06::insert_full::<16, 32>(8, 6)", 16, be=G8, n2=32, items=8, props=C6, tier="thorough", timeout=3600)
+    T("c06_remove_n4", "c06::remove_reinsert::<4>(SYM, SYM, false)", 4, props=C6, covers="some")
+    T("c06_remove_n8", "c06::remove_reinsert::<8>(SYM, SYM, false)", 8, props=C6, covers="some")
+    T("c06_remove_reinsert_n8", "c06::remove_reinsert::<8>(SYM, SYM, true)", 8, props=C6, covers="some")
+    T("c06_remove_n16", "c06::remove_reinsert::<16>(SYM, SYM, false)", 16, be=G8, props=C6, timeout=1800)
+    T("c06_remove_reinsert_n16", "c06::remove_reinsert::<16>(SYM, SYM, true)", 16, be=G8, props=C6, timeout=1800)
+    T("c06_remove_n32s", "c06::remove_reinsert::<32>(SYM, SYM, false)", 32, be=S16, props=C6, tier="thorough", timeout=3600)
+    T("c06_entry_n4", "c06::entry::<4, 4>(2, 0)", 4, items=2)
+    T("c06_entry_n4_grow", "c06::entry::<4, 8>(3, 0)", 4, n2=8, items=3, covers="some")
+    T("c06_entry_n8", "c06::entry::<8, 8>(4, 0)", 8, items=4)
+    T("c06_entry_n16_rehash", "c06::entry::<16, 32>(3, 11)", 16, be=G8, n2=32, items=3, timeout=1800, tier="thorough")
+    T("c06_reserve_n8_grow", "c06::reserve::<8, 16>(3, 0, 5)", 8, n2=16, items=3)
+    T("c06_rehash_lay_a", "c06::rehash_layout::<16>(0x0302, 0xF0FD & !0x0302)", 16, be=G8, items=3, timeout=1500)
+    T("c06_shrink_n8_to4", "c06::shrink_to::<8, 4>(2, 0, 0)", 8, n2=4, items=2)
+    T("c06_shrink_n8_empty", "c06::shrink_to::<8, 1>(0, 0, 0)", 8, items=0)
+    T("c06_shrink_n8_empty_m3", "c06::shrink_to::<8, 4>(0, 0, 3)", 8, n2=4, items=0)
+    T("c06_shrink_n8_noop", "c06::shrink_to::<8, 8>(5, 0, 2)", 8, items=5)
+    T("c06_clear_n8", "c06::clear::<8>()", 8)
+    T("c06_iter_hash_n4", "c06::iter_hash::<4>()", 4, covers="some")
+    T("c06_iter_hash_n8", "c06::iter_hash::<8>()", 8, covers="some")
+    T("c06_iter_hash_n16", "c06::iter_hash::<16>()", 16, be=G8, covers="some")
+    for c in (0, 1, 3, 4, 7, 8, 14, 15, 28):
+        T("c06_base_cap%d" % c, "c06::base_case::<%d>()" % c, 32, tier="quick" if c in (0, 3, 14) else "thorough", props=("C06", "C01", "C08"))
+    # ------------------------------------------------------------------ C09 iterators
+    C9 = ("C09", "C02", "C18")
+    for n, be, tier in ((4, BOTH, "quick"), (8, G8, "quick"), (16, BOTH, "quick"), (32, S16, "quick"), (32, G8, "thorough"), (64, S16, "thorough")):
+        sfx = "" if be == BOTH else ("_" + be[0])
+        for mode, mn in ((0, "next"), (1, "fold"), (2, "clone")):
+            T("c09_iter_%s_n%d%s" % (mn, n, sfx), "c09::table_iter::<%d>(%d)" % (n, mode), n, be=be, tier=tier, props=C9, covers="some", timeout=1500)
+    T("c09_iter_mut_n8", "c09::table_iter_mut::<8>()", 8, props=C9)
+    T("c09_iter_mut_n16", "c09::table_iter_mut::<16>()", 16, props=C9, be=G8)
+    T("c09_into_iter_n8", "c09::table_into_iter::<8>()", 8, props=C9 + ("C03",))
+    T("c09_into_iter_n16", "c09::table_into_iter::<16>()", 16, props=C9 + ("C03",), be=G8)
+    T("c09_drain_n8", "c09::table_drain::<8>()", 8, props=C9 + ("C10",))
+    T("c09_drain_n16", "c09::table_drain::<16>()", 16, props=C9 + ("C10",), be=G8)
+    T("c09_defaults_empty", "c09::defaults_empty()", 4, props=C9, be=ANY)
+    for w, wn in enumerate(("iter", "keys", "values", "iter_mut", "values_mut", "into_iter", "into_keys", "into_values", "drain")):
+        T("c09_map_%s_n8" % wn, "c09::map_iters::<8>(%d)" % w, 8, props=C9, be=G8 if w not in (0, 5) else BOTH)
+    for w, wn in enumerate(("iter", "into_iter", "drain")):
+        T("c09_set_%s_n8" % wn, "c09::set_iters::<8>(%d)" % w, 8, props=C9, be=G8)
+    # ------------------------------------------------------------------ C01 HashMap steps
+    C1 = ("C01", "C18")
+    T("c01_lookup_n8", "c01::lookup::<8>()", 8, props=C1)
+    T("c01_lookup_n16", "c01::lookup::<16>()", 16, be=G8, props=C1)
+    T("c01_lookup_n4", "c01::lookup::<4>()", 4, be=G8, props=C1)
+    T("c01_insert_n4", "c01::insert::<4, 4>(2, 0)", 4, items=2, be=G8, props=C1)
+    T("c01_insert_n4_full", "c01::insert::<4, 8>(3, 0)", 4, n2=8, items=3, be=G8, props=C1, covers="some")
+    T("c01_insert_n8", "c01::insert::<8, 8>(4, 0)", 8, items=4, props=C1)
+    T("c01_insert_n16", "c01::insert::<16, 16>(4, 3)", 16, items=4, be=G8, props=C1)
+    T("c01_remove_n8", "c01::remove::<8>(false)", 8, props=C1)
+    T("c01_remove_entry_n8", "c01::remove::<8>(true)", 8, be=G8, props=C1)
+    T("c01_remove_n16", "c01::remove::<16>(false)", 16, be=G8, props=C1, timeout=1800)
+    T("c01_try_insert_n8", "c01::try_insert::<8, 8>(4, 0)", 8, items=4, be=G8, props=C1)
+    for form, fn_ in enumerate(("or_insert", "and_modify", "entry_ref", "occ_vac_insert", "or_insert_with_key", "or_default")):
+        T("c01_entry_%s_n8" % fn_, "c01::entry::<8, 8>(4, 0, %d)" % form, 8, items=4, be=G8 if form else BOTH, props=("C01", "C14", "C18"))
+    T("c01_entry_or_insert_n4_full", "c01::entry::<4, 8>(3, 0, 0)", 4, n2=8, items=3, be=G8, props=("C01", "C14"), covers="some")
+    T("c01_retain_n8", "c01::retain::<8>()", 8, props=("C01", "C10", "C18"))
+    T("c01_retain_n16", "c01::retain::<16>()", 16, be=G8, props=("C01", "C10"), timeout=1800)
+    T("c01_clear_n8", "c01::clear_reserve_shrink::<8, 8>(SYM, SYM, 0, 0)", 8, be=G8, props=C1)
+    T("c01_reserve_n8", "c01::clear_reserve_shrink::<8, 16>(2, 0, 1, 6)", 8, n2=16, items=2, be=G8, props=C1)
+    T("c01_shrink_to_n16", "c01::clear_reserve_shrink::<16, 8>(2, 0, 2, 5)", 16, n2=8, items=2, be=G8, props=C1)
+    T("c01_shrink_to_fit_n8", "c01::clear_reserve_shrink::<8, 4>(2, 0, 3, 0)", 8, n2=4, items=2, be=G8, props=C1)
+    T("c01_extend2_n8", "c01::extend2::<8, 8>(3, 0)", 8, items=3, be=G8, props=C1, timeout=1500)
+    T("c01_base_case", "c01::base_case()", 4, n2=4, items=1, be=G8, props=C1)
+    # ------------------------------------------------------------------ C10 retain / extract_if / drain
+    C10 = ("C10", "C18")
+    T("c10_retain_n8", "c10::table_retain::<8>()", 8, props=C10, covers="some")
+    T("c10_retain_n16", "c10::table_retain::<16>()", 16, be=G8, props=C10, timeout=1800)
+    T("c10_retain_n32s", "c10::table_retain::<32>()", 32, be=S16, props=C10, tier="thorough", timeout=3600)
+    T("c10_extract_if_n8", "c10::table_extract_if::<8>()", 8, props=C10, covers="some")
+    T("c10_extract_if_n16", "c10::table_extract_if::<16>()", 16, be=G8, props=C10, timeout=1800, covers="some")
+    T("c10_map_extract_if_n8", "c10::map_extract_if::<8>()", 8, be=G8, props=C10)
+    for w, wn in enumerate(("retain", "extract_if", "drain")):
+        T("c10_set_%s_n8" % wn, "c10::set_ops::<8>(%d)" % w, 8, be=G8, props=("C10", "C07"))
+    # ------------------------------------------------------------------ C03 drop / allocation ledger
+    for op, on in enumerate(("drop", "remove", "clear", "retain", "extract_if", "drain", "into_iter", "shrink0", "remove_reinsert")):
+        if on == "shrink0":
+            continue
+        T("c03_%s_n8" % on, "c03::ledger_op::<8>(%d)" % op, 8, be=G8, props=("C03", "C02"))
+    T("c03_drop_n16", "c03::ledger_op::<16>(0)", 16, be=G8, props=("C03",))
+    T("c03_drain_n16", "c03::ledger_op::<16>(5)", 16, be=G8, props=("C03",), tier="thorough")
+    T("c03_into_iter_n4s", "c03::ledger_op::<4>(6)", 4, be=S16, props=("C03",))
+    T("c03_grow_n8", "c03::ledger_resize::<8, >(2, 0, 0, 6)".replace("<8, >", "<8>"), 8, n2=16, items=2, be=G8, props=("C03", "C08"))
+    T("c03_shrink_n8", "c03::ledger_resize::<8>(2, 0, 1, 0)", 8, n2=4, items=2, be=G8, props=("C03", "C08"))
+    T("c03_shrink_empty_n8", "c03::ledger_resize::<8>(0, 0, 1, 0)", 8, items=0, be=G8, props=("C03", "C08"))
+    T("c03_insert_grow_n4", "c03::ledger_resize::<4>(3, 0, 2, 0)", 4, n2=8, items=3, be=G8, props=("C03",))
+    T("c03_no_block_when_unused", "c03::no_block_when_unused()", 4, be=ANY, props=("C03", "C08"))
     return L
 
 
